@@ -141,9 +141,17 @@ class Family:
         """view keys read by a get(j) operation"""
         return ["item:%d" % j]
 
+    list_item = False   # True: the item type itself is list-like (a bare [] is a proper empty item)
+
     def read(self, loader, view):
+        return self.read2(loader, view)[0]
+
+    def read2(self, loader, view):
+        """-> (normal form, shape) with shape in {"item", "list", "none"}: what kind of python object came back"""
         j = int(view.split(":")[1])
-        return self.norm(loader.get_item_by_id(self.mkid(j)), self.mkid(j))
+        raw = loader.get_item_by_id(self.mkid(j))
+        shape = "none" if raw is None else ("list" if type(raw) is list and not self.list_item else "item")
+        return self.norm(raw, self.mkid(j)), shape
 
     def contain(self, loader, j):
         return bool(loader.contain(self.mkid(j)))
@@ -175,6 +183,7 @@ def _gl(cls_name, schema_name=None):
 # ---- unit level ---------------------------------------------------------------------------------
 
 class GIR(Family):
+    list_item = True
     name, cls = "gir", "UnitGIRLoader"
     new = _gl("UnitGIRLoader")
     COLS = {"target": "s", "operand": "s", "operand2": "s", "name": "s", "body": "i", "attrs": "s", "data_type": "s"}
@@ -196,6 +205,7 @@ class GIR(Family):
 
 
 class ScopeHierarchy(Family):
+    list_item = True
     name, cls = "scope_hierarchy", "ScopeHierarchyLoader"
     new = _gl("ScopeHierarchyLoader")
 
@@ -218,16 +228,17 @@ class ScopeHierarchy(Family):
 
 
 class ExportSymbols(Family):
+    list_item = True
     name, cls = "export_symbols", "UnitIDToExportSymbolsLoader"
     new = _gl("UnitIDToExportSymbolsLoader")
 
     def content(self, draw):
         return d_list(draw, lambda dr: [d_int(dr, 100, 104), d_int(dr, 0, 11), d_pick(dr, [120, 121, 132, -3, -4]),
-                                        d_pick(dr, NAMES), d_pick(dr, [-1, 101, 102])], 0, 3)
+                                        d_pick(dr, NAMES), d_pick(dr, ["unset", "own"])], 0, 3)
 
     def build(self, spec, idobj):
         cs = N._lian()[0]
-        return [cs.SymbolNodeInImportGraph(*r) for r in spec]
+        return [cs.SymbolNodeInImportGraph(r[0], r[1], r[2], r[3], idobj if r[4] == "own" else -1) for r in spec]
 
     def norm(self, obj, idobj=None):
         return N.rows(obj, idobj)
@@ -427,6 +438,7 @@ class Space(Family):
 
 
 class ParamMapping(Family):
+    list_item = True
     name, cls, ids, id_column = "callee_parameter_mapping", "CalleeParameterMapping", CALLSITES, "hash_id"
     new = _gl("CalleeParameterMapping")
 
@@ -466,12 +478,13 @@ class ParamMapping(Family):
 
 
 class DefinedSymbols(Family):
-    """P1 saves {symbol_id: set(stmt ids)}, P2/P3 save {symbol_id: set(SymbolDefNode)}"""
-    name, cls, ids, id_column = "defined_symbols", "MethodSymbolToDefinedLoader", METHOD_IDS, "method_id"
+    """P1 saves {symbol_id: set(stmt ids)}, P2/P3 save {symbol_id: set(SymbolDefNode)} (separate loader instances)"""
+    name, cls, ids, id_column = "defined_symbols_p1", "MethodSymbolToDefinedLoader", METHOD_IDS, "method_id"
     new = _gl("MethodSymbolToDefinedLoader")
+    nodes = False
 
     def content(self, draw):
-        nodes = d_int(draw, 0, 1) == 1
+        nodes = self.nodes
         out = {}
         for _ in range(d_int(draw, 0, 3)):
             k = d_pick(draw, [120, 125, 130, -124])
@@ -496,6 +509,10 @@ class DefinedSymbols(Family):
 
     def spec_rows(self, spec):
         return len(spec["d"])
+
+
+class DefinedSymbolsP3(DefinedSymbols):
+    name, nodes = "defined_symbols_p3", True
 
 
 class DefinedStates(Family):
@@ -605,6 +622,9 @@ class SFG(Family):
 
 class FileFamily(Family):
     kind = FILE
+
+    def read2(self, loader, view):
+        return self.read(loader, view), "item"
 
     def contain(self, loader, j):
         return None
@@ -840,7 +860,10 @@ class SummaryTemplate(FileFamily):
         return {"parameter_symbols": dd(draw), "defined_external_symbols": dd(draw), "used_external_symbols": dd(draw),
                 "return_symbols": dd(draw), "key_dynamic_content": dd(draw), "this_symbols": dd(draw),
                 "dynamic_call_stmts": d_ids(draw, 0, 2),
-                "external_symbol_to_state": {str(d_pick(draw, [-121, -124])): d_int(draw, 0, 8) for _ in range(d_int(draw, 0, 1))}}
+                "external_symbol_to_state": {str(d_pick(draw, [-121, -124])): d_int(draw, 0, 8) for _ in range(d_int(draw, 0, 1))},
+                # compact-space renumbering and default values of parameters, for some of the indexes 0..8 used above
+                "raw_to_new_index": {str(d_int(draw, 0, 8)): d_int(draw, 20, 28) for _ in range(d_int(draw, 0, 2))},
+                "index_to_default_value": {str(d_int(draw, 0, 8)): d_int(draw, 120, 125) for _ in range(d_int(draw, 0, 1))}}
 
     def build(self, spec, idobj):
         cs = N._lian()[0]
@@ -851,7 +874,9 @@ class SummaryTemplate(FileFamily):
             used_external_symbols=dd(spec["used_external_symbols"]), return_symbols=dd(spec["return_symbols"]),
             key_dynamic_content=dd(spec["key_dynamic_content"]), dynamic_call_stmts=set(spec["dynamic_call_stmts"]),
             this_symbols=dd(spec["this_symbols"]),
-            external_symbol_to_state={int(k): v for k, v in spec["external_symbol_to_state"].items()})
+            external_symbol_to_state={int(k): v for k, v in spec["external_symbol_to_state"].items()},
+            raw_to_new_index={int(k): v for k, v in spec.get("raw_to_new_index", {}).items()},
+            index_to_default_value={int(k): v for k, v in spec.get("index_to_default_value", {}).items()})
 
     def norm(self, obj, idobj=None):
         return N.method_summary(obj)
@@ -981,13 +1006,13 @@ class TypeGraphF(_Whole):
 
 
 class MethodsInClass(FileFamily):
+    """methods declared by the class itself"""
     name, cls, ids = "class_methods", "ClassIDToMethodsLoader", CLASS_IDS
     new = _fl("ClassIDToMethodsLoader")
+    hows = ["own"]
 
     def content(self, draw):
-        # own methods, plus (for a subclass) methods inherited from another class: MethodInClass.class_id is the class
-        # that declares the method
-        return d_list(draw, lambda dr: [d_pick(dr, ["own", "own", "inherited"]), d_pick(dr, NAMES), d_int(dr, 0, 4)], 0, 3)
+        return d_list(draw, lambda dr: [d_pick(dr, self.hows), d_pick(dr, NAMES), d_int(dr, 0, 4)], 0, 3)
 
     def _methods(self, j, spec):
         cs = N._lian()[0]
@@ -1005,11 +1030,21 @@ class MethodsInClass(FileFamily):
 
     def model_save(self, model, j, spec):
         ms = self._methods(j, spec)
-        if ms:      # save() of an empty list is a no-op
-            model["item:%d" % j] = N.sorted_any(ms)
+        model["item:%d" % j] = N.sorted_any(ms) or EMPTY
 
     def read(self, loader, view):
         return N.methods_in_class(loader.convert_one_to_many(self.mkid(int(view.split(":")[1]))))
+
+
+class MethodsInClassInherited(MethodsInClass):
+    """as type_hierarchy.py saves them: own methods plus the methods inherited from another class, whose
+    MethodInClass.class_id is the class that declares them"""
+    name, cls = "class_methods_inherited", "ClassIDToMethodsLoader[inherited]"
+    hows = ["own", "own", "inherited"]
+
+    def new(self, d, icap, bcap):
+        cs, L, config, schema = _mods()
+        return L.ClassIDToMethodsLoader(os.path.join(d, self.name))
 
 
 class NameMap(FileFamily):
@@ -1046,8 +1081,8 @@ class NameMap(FileFamily):
 
 FAMILIES = [GIR(), ScopeHierarchy(), ExportSymbols(), ClassMembers(), SymbolNameToScopeIDs(), SymbolNameToDeclIDs(),
             ScopeToAvailableScopes(), ScopeToSymbolInfo(), CFG(), SymbolBitVec(), StateBitVec(), StmtStatusF(), Space(),
-            ParamMapping(), DefinedSymbols(), DefinedStates(), UsedSymbols(), SymbolGraphF(), SFG(),
+            ParamMapping(), DefinedSymbols(), DefinedSymbolsP3(), DefinedStates(), UsedSymbols(), SymbolGraphF(), SFG(),
             OneToMany(), StmtToScope(), UnitToStmtIDs(), CallFormat(), MethodDeclFormat(), ExternalSymbolIDs(), EntryPoints(),
             DefUseSummary(), SummaryTemplate(), InternalCallees(), CallGraphF(), CallPaths(), GroupedMethods(), TypeGraphF(),
-            MethodsInClass(), NameMap()]
+            MethodsInClass(), MethodsInClassInherited(), NameMap()]
 BY_NAME = {f.name: f for f in FAMILIES}
